@@ -15,6 +15,7 @@ mod c08;
 mod c09;
 mod c10;
 mod c11;
+mod c14;
 mod c16;
 mod c18;
 pub mod util;
@@ -71,6 +72,7 @@ fn run_lines() {
             "cluster" => c01::cluster(&mut t),
             "crash" => c06::crash(&mut t),
             "sub" => c11::sub(&mut t),
+            "upd" => c14::upd(&mut t),
             "ltx" => c07::ltx(&mut t),
             "ctx" => c07::ctx(&mut t),
             "partners" => c16::partners(&mut t),
